@@ -1,6 +1,6 @@
 PROPERTY = "C19"
 LEVEL = "proof"
-LEAN_MODULES = ["CifModel.Props.C19"]
+LEAN_MODULES = ["CifModel.Props.C19", "CifModel.Props.ReviewC19"]
 REQUIRED = ["CifModel.C19_list_is_sequence", "CifModel.C19_table_is_map", "CifModel.C19_table_invalid_key",
             "CifModel.C19_table_history", "CifModel.C19_packet_is_map", "CifModel.C19_packet_create", "CifModel.C19_wrong_kind",
             "CifModel.C19_clone_equal", "CifModel.C19_reinit_releases", "CifModel.C19_packet_create_dup", "CifModel.C19_cex_packet_create_dup_pinned",
